@@ -227,6 +227,18 @@ def list_constructor(ctx, tk):
                 ok = False if ok is not None else None
         ctx.decide("C01.c", f, what, ok, "data comprehension iterates %s, lengths comprehension iterates %s" % (
             its_d[0].a[2][0] if its_d else "?", its_s[0].a[2][0] if its_s else "?"), node=n.ast, engine="E6")
+        # KB: np.array(list of elements) infers the element type from the elements; an empty list is float64.  Rows given as
+        # typed arrays that are all empty therefore lose their element type unless the rows' own dtypes are consulted
+        flat_by_elements = any(np_call_(a, {"array", "asarray", "asanyarray"}) and a.a[1] and a.a[1][0].k == "comp" and len(a.a[1][0].a[2]) >= 2 for a in alts(data))
+        if flat_by_elements:
+            consults = any((x.k == "call" and (attr_chain(x.a[0]) or ("",))[-1] in ("result_type", "concatenate", "hstack", "common_type", "promote_types", "find_common_type")) or
+                           (x.k == "attr" and x.a[1] == "dtype" and any(y.k in ("elem", "param") for y in walk(x.a[0])))
+                           for a in alts(data) for x in walk(a)) or any(
+                isinstance(x, ast.Call) and isinstance(x.func, ast.Attribute) and x.func.attr in ("result_type", "common_type", "promote_types")
+                for st in fa.cfg.stmts() if fa.cfg.is_reachable(st) and st.ast is not None for x in ast.walk(st.ast))
+            ctx.decide("C01.c", f, "the element type of typed rows survives when no row has an element", True if consults else False,
+                       "`%s`: the dtype is inferred from the elements alone; rows that are all empty (np.array([], dtype=int8) ...) give a float64 array" % (
+                           [a for a in alts(data)][0],), node=n.ast, key="empty-dtype", engine="KB")
 
 
 def dtype_flow(ctx, tk):
